@@ -1025,7 +1025,6 @@ func tokSetNames(tc *tokConsts, m map[int64]bool) string {
 	return strings.Join(s, " ")
 }
 
-
 // ---- tables behind package-level variables (read from the package initialiser) ----------------------------------------
 
 func zeroOf(t types.Type) constant.Value {
